@@ -344,8 +344,8 @@ func compare(c *mon.Case, feat map[string]string, bs []block, want []expIns, fai
 
 func main() {
 	mon.Main(mon.Spec{
-		Prop: "C21",
-		Rule: "case = code image of 1..5 blocks (adjacent, gapped, unsorted, near 2^32) filled with valid RISC-V words of a random configuration, sometimes with an undecodable word at the first/middle/last position or a truncated tail; one third of the cases use a well-behaved stub parser with instruction lengths 1..6; non-trivial = image that must fail, or image with >=2 blocks, distinct by content",
+		Prop:        "C21",
+		Rule:        "case = code image of 1..5 blocks (adjacent, gapped, unsorted, near 2^32) filled with valid RISC-V words of a random configuration, sometimes with an undecodable word at the first/middle/last position or a truncated tail; one third of the cases use a well-behaved stub parser with instruction lengths 1..6; non-trivial = image that must fail, or image with >=2 blocks, distinct by content",
 		Explanation: "oracle: my own walk over the blocks with refrv.Decode (or the stub's length rule) decides success and the expected (address, bytes) tiling; on success each instruction must carry its bytes and its effects must be equivalent (kind, key, width, operand values on valuations by refir) to the front end's direct lifting of those bytes, with the same text and type",
 		Assumptions: []string{"refrv decode table", "refir evaluator", "image built through the verif hook elf.VerifNewMemory"},
 		Cases: func(t string) int {
